@@ -128,7 +128,9 @@ func c11Exec(c Sx) (obs Sx) {
 	got, _, _ := r.Match("GET", dec)
 	// a HEAD lookup of a GET-only route goes through the same normalisation (HEAD falls back to GET)
 	gotHead, _, _ := r.Match("HEAD", dec)
-	req := &http.Request{Method: "GET", URL: u, Header: http.Header{}, Proto: "HTTP/1.1", ProtoMajor: 1, ProtoMinor: 1}
+	// RequestURI is what the client sent (here: absolute-form, with a query); the router must go by URL, not by RequestURI
+	req := &http.Request{Method: "GET", URL: u, Header: http.Header{}, Proto: "HTTP/1.1", ProtoMajor: 1, ProtoMinor: 1,
+		RequestURI: "http://h.example/other/" + esc + "?x=1"}
 	w := httptest.NewRecorder()
 	r.ServeHTTP(w, req)
 	if (got == rt) != (gotHead == rt) {
